@@ -22,6 +22,7 @@ ENGINES = {
     "C07": ["e3"], "C12": ["e3"], "C13": ["e3"],
     "C11": ["e4"], "C15": ["e4"], "C18": ["e4"],
     "C01": ["e2"], "C10": ["e2"], "C20": ["e2"], "C19": ["e2c"],
+    "C16": ["e5"], "C17": ["e5", "e2"],
 }
 
 
@@ -41,6 +42,7 @@ def main():
     if prop not in ENGINES:
         common.die_machinery(f"no check for {prop}")
     t0 = time.time()
+    common.assert_hooks()
     reports = []
     for name in ENGINES[prop]:
         eng = importlib.import_module(name)
